@@ -2,7 +2,15 @@
 
 package tor
 
-import "github.com/jech/storrent/webseed"
+import (
+	"context"
+	"math/rand/v2"
+	"sort"
+
+	"github.com/jech/storrent/bitmap"
+	"github.com/jech/storrent/peer"
+	"github.com/jech/storrent/webseed"
+)
 
 // Accessors for the verification harness (/verif).  Compiled only with
 // the build tag "verif"; nothing here is used by storrent itself.
@@ -33,4 +41,45 @@ func (t *Torrent) VerifWebseeds() (urls []string, getright []bool) {
 		getright = append(getright, gr)
 	}
 	return urls, getright
+}
+
+// VerifInit prepares a torrent that is not run by AddTorrent so that the
+// harness can feed events to handleEvent synchronously.
+func (t *Torrent) VerifInit() {
+	t.rand = rand.New(rand.NewPCG(1, 2))
+	t.Event = make(chan peer.TorEvent, 512)
+	t.Done = make(chan struct{})
+	t.Deleted = make(chan struct{})
+}
+
+// VerifHandleEvent runs one iteration of the torrent's event handler.
+func (t *Torrent) VerifHandleEvent(ctx context.Context, e peer.TorEvent) error {
+	return handleEvent(ctx, t, e)
+}
+
+// VerifRequestMetadata is the periodic metadata request of the main loop.
+func (t *Torrent) VerifRequestMetadata() error {
+	return requestMetadata(t, nil)
+}
+
+// VerifMetadataState exposes the state of the metadata exchange: the
+// length of the buffer, the blocks present, the number of block slots,
+// and the size votes as sorted (size, count) pairs.
+func (t *Torrent) VerifMetadataState() (infoLen int, have bitmap.Bitmap, slots int, votes [][2]uint32) {
+	for s, c := range t.infoSizeVotes {
+		votes = append(votes, [2]uint32{s, uint32(c)})
+	}
+	sort.Slice(votes, func(i, j int) bool { return votes[i][0] < votes[j][0] })
+	return len(t.Info), t.infoBitmap.Copy(), len(t.infoRequested), votes
+}
+
+// VerifAvailable returns the per-piece availability counters.
+func (t *Torrent) VerifAvailable() []uint16 {
+	return t.available
+}
+
+// VerifAddPeer registers a peer with the torrent without starting it.
+func (t *Torrent) VerifAddPeer(p *peer.Peer) {
+	p.Pieces = &t.Pieces
+	t.peers = append(t.peers, p)
 }
